@@ -24,10 +24,10 @@ def levels(tier):
             {"name": "attach-n3", "n": 3, "prelude": [["we", [[0, 1]]]], "alphabet": ["we", "addprefix", "moveprefix", "page"], "pool": POOL[:2]},
         ]
     return [
-        {"name": "n3", "n": 3, "alphabet": alpha, "links_batch": 2, "rule_patterns": ["path1", "subdomain"], "we_two_prefixes": True},
-        {"name": "n4", "n": 4, "alphabet": alpha, "links_batch": 1, "rule_patterns": ["path1"]},
+        {"name": "n3-wide", "n": 3, "alphabet": ["we", "delwe", "page", "rule", "reopen", "clear"], "rule_patterns": ["path1"], "pool": POOL[:2]},
+        {"name": "rule-restart-n4", "n": 4, "prelude": [["page", 1, False]], "alphabet": ["rule", "reopen", "page"], "rule_patterns": ["path1"]},
+        {"name": "attach-n4", "n": 4, "prelude": [["we", [[0, 1]]]], "alphabet": ["we", "addprefix", "moveprefix", "page"], "pool": POOL[:2]},
         {"name": "n5", "n": 5, "alphabet": ["we", "delwe", "page", "reopen"], "pool": POOL[:2]},
-        {"name": "rule-restart", "n": 4, "prelude": [["page", 1, False]], "alphabet": ["rule", "reopen", "page", "delwe"], "rule_patterns": ["path1", "subdomain"]},
     ]
 
 
